@@ -36,7 +36,7 @@ type Config struct {
 
 func defaultConfig(tier string) *Config {
 	c := &Config{Tier: tier, Unwind: 24, MaxMake: 64, MaxStrCells: 4, EnumBound: 3, SliceBound: 1, MaxMapPerm: 3,
-		StepLimit: 2_000_000, PathLimit: 20000, QueryMs: 20000, Workers: 16, ObTimeoutS: 600, Bounds: map[string]int{}}
+		StepLimit: 2_000_000, PathLimit: 60000, QueryMs: 20000, Workers: 16, ObTimeoutS: 600, Bounds: map[string]int{}}
 	c.BigAbsBound = new(big.Int).Lsh(big.NewInt(1), 100)
 	if tier == "thorough" {
 		c.EnumBound = 4
@@ -183,6 +183,7 @@ func loadProgram(repo, harnessDir string, cfg *Config) (*Engine, error) {
 		"github.com/cosmos/cosmos-sdk/x/staking/types",
 		"github.com/cosmos/cosmos-sdk/x/params/types",
 		"github.com/cosmos/cosmos-sdk/store/types",
+		"github.com/cosmos/cosmos-sdk/x/auth/types",
 	}
 	// build every package the engine may execute up front (lazy building from several workers races)
 	for path, p := range eng.pkgs {
